@@ -243,6 +243,12 @@ class Run:
     def __init__(self, prop, tier, seed, level="proof"):
         self.prop, self.tier, self.seed, self.level = prop, tier, seed, level
         self.t0 = time.time()
+        import glob
+        for f in glob.glob(os.path.join(VERIF, "replays", "%s-*.json" % prop)):
+            try:
+                os.unlink(f)
+            except OSError:
+                pass
         self.cov = dict(evaluations=0, distinct_nontrivial=0, rule="", samples=[], obligations=0, discharged=0,
                         checker_cmd="", trusted_base=[], distribution={})
         self.assumptions = []
